@@ -13,6 +13,8 @@
       -transformed-by "Applies TEXT-MATCHER to the original text transformed by TEXT-TRANSFORMER."
       ! && ||         negation, conjunction, disjunction.
       filter          "Keeps lines matched by MATCHER, and discards lines not matched."
+                      -line-nums RANGE... "A line matches iff it's line number matches any LINE-NUMBER-RANGE";
+                      "Negative numbers denote line numbers relative to the end. -1 is the last line number"
       grep            "Shortcut for filter contents matches."
       replace         "Replaces every string matching REGEX (on a single line) with STRING. ... Every
                        line ends with "\n", except the last line, which may or may not end with "\n".
@@ -26,7 +28,7 @@
       T1 | T2         "The output of the text-transformer to the left is given as input to the
                        text-transformer to the right." *)
 From Coq Require Import ZArith NArith List Bool.
-From Exactly Require Import Lib.Harness Lib.Text Model.Interval Model.TextOps.
+From Exactly Require Import Lib.Harness Lib.Text Model.Interval Model.LineNums Model.TextOps Spec.C13b.
 Import ListNotations.
 
 Fixpoint dropwhile {A} (p : A -> bool) (l : list A) : list A :=
@@ -91,6 +93,10 @@ Section Sem.
     | TLower => py_lower t
     | TFilter lm =>
         concat (map snd (filter (fun nl => sem_lm lm (fst nl) (line_contents (snd nl))) (numbered_lines t)))
+    | TFilterLineNums rs =>
+        (* the lines whose 1-based number lies in at least one RANGE, negative numbers counting from the end
+           (Spec/C13b.v [line_nums_spec], [in_ranges]) *)
+        concat (line_nums_spec rs (lines_lf t))
     | TSeq a b => sem_t b (sem_t a t)
     end
   with sem_src (e : tsource) {struct e} : text :=
